@@ -1,4 +1,5 @@
 pub mod c01;
+pub mod common;
 pub mod c02;
 pub mod c03;
 pub mod c04;
